@@ -114,6 +114,14 @@ def run_c2s(ctx, pid, kinds, n_general, n_smooth, notes_for=None):
         ordered[j] = tds[k]
         j += 1
         td = tds[k]
+        if rng.random() < 0.12:
+            # the same events under ANOTHER OFFSET, back to back in one process (-1 and -2, among others: values that
+            # collide under hash())
+            a, b = rng.choice([("-1", "-2"), ("-2", "-1.000"), ("0", "-0.0"), ("1", "1.0"), ("-1", "0"), ("0.5", "-0.5")])
+            ordered[j - 1] = tc.TD(td.bpms, td.stops, td.delays, td.warps, a)
+            ordered[j] = tc.TD(td.bpms, td.stops, td.delays, td.warps, b)
+            j += 1
+            continue
         if (td.stops or td.delays) and rng.random() < 0.35:
             how = rng.random()
             if how < 0.5:
